@@ -18,9 +18,9 @@ CLAIMED = {
  },
  "C05": {
   "technique": "Lean 4 theorems over load/store bodies regenerated from w2c2_base.h + mem-ops differential tie",
-  "text": "The bodies of all 14 load and 9 store functions are regenerated from the current header into a small statement language with explicit memory semantics and proved, for every memory, every in-bounds address of any alignment and every value, to return / write exactly the little-endian bytes the specification prescribes (with frame, round-trip and 33-bit effective-address theorems). The real functions are run against the regenerated bodies and an independently computed specification on every run. memory.grow's sequential semantics is proved in Props/C18 (imported); bulk operations and the emission of memory instructions are tied by e2e only (stated partial).",
+  "text": "The bodies of all 14 load and 9 store functions are regenerated from the current header into a small statement language with explicit memory semantics and proved, for every memory, every in-bounds address of any alignment and every value, to return / write exactly the little-endian bytes the specification prescribes (with frame, round-trip and 33-bit effective-address theorems). The real functions are run against the regenerated bodies and an independently computed specification on every run. memory.grow's sequential semantics is proved in Props/C18 (imported); bulk operations and the emission of memory instructions are tied by e2e only (stated partial). Bulk memory: memory_copy_correct / memory_fill_correct / memory_init_correct (Props/C05Sim) — the specification's byte-by-byte reduction rules (forward copy when d<=s, backward otherwise) equal, for every memory, address pair and length in bounds and EVERY overlap, what the regenerated helpers wasmMemoryCopy / wasmMemoryFill / LOAD_DATA->load_data do under libc's contracts for memmove / memset / memcpy (Lemmas/Bulk: copy_eq_memmove, fill_eq_memset, init_eq_memcpy); these instructions are part of the simulation theorem (C03Num) and of the sim-semantics tie against V8 and the real output.",
   "design_ref": "DESIGN.md §5 C05",
-  "note": "Trusted: Lean kernel; tools/extract; C object representation (memcpy = host byte order); gcc. Out-of-bounds accesses are outside the property (in-bounds hypothesis).",
+  "note": "Trusted: Lean kernel; tools/extract; C object representation (memcpy = host byte order); libc contracts of memmove/memset/memcpy (C standard 7.24); gcc. Out-of-bounds accesses (and memory.init after data.drop, which w2c2 does not implement) are outside the property (in-bounds hypothesis).",
  },
  "C16": {
   "technique": "Lean 4 theorems over atomic accessor bodies regenerated from w2c2_base.h + mem-ops differential tie",
@@ -90,9 +90,9 @@ CLAIMED = {
  },
  "C03": {
   "technique": "Lean 4 simulation proof (translator model vs WebAssembly semantics, all bodies / nesting depths / fuel) + token-for-token correspondence of the translator model with the real w2c2 + e2e vs V8",
-  "text": "compile_sim_partial / func_sim_partial: for every function body the (strict) model of w2c2's single-pass translator accepts, every operand stack, locals and amount of fuel, when WebAssembly execution of block/loop/if/br/br_if/br_table/return/unreachable/select/drop/nop/local.*/global.*/const/numeric/load/store/memory.size/memory.grow/call/call_indirect instructions finishes normally, by a branch (any depth, any stack height, with its carried value) or by a trap, the emitted C (slot variables, goto, labelled blocks, switch) finishes the same way with every operand in its slot and equal locals, globals and memory; whole functions return the same value and leave the same instance state, with parameters = arguments and declared locals zero. module_sim_concrete (Props/C03Num) instantiates every parameter of that theorem: the specification side runs Spec.numOp / Spec.load / Spec.store, the emitted-C side EXECUTES, by the C semantics, the statement w2c2 emits for each of the 136 numeric opcodes (dispatch table and header macros regenerated from c.c / w2c2_base.h) and the regenerated load/store functions — C01, C02 and C05 composed with C03/C04 in one theorem. The model is tied to the real translator on every run: the rendered model output equals the real w2c2 output token by token for every function of thousands of generated modules in plain/-p/-m modes, and the compiled real output agrees with V8.",
+  "text": "compile_sim_partial / func_sim_partial: for every function body the (strict) model of w2c2's single-pass translator accepts, every operand stack, locals and amount of fuel, when WebAssembly execution of block/loop/if/br/br_if/br_table/return/unreachable/select/drop/nop/local.*/global.*/const/numeric/load/store/memory.size/memory.grow/memory.copy/memory.fill/memory.init/call/call_indirect instructions finishes normally, by a branch (any depth, any stack height, with its carried value) or by a trap, the emitted C (slot variables, goto, labelled blocks, switch) finishes the same way with every operand in its slot and equal locals, globals and memory; whole functions return the same value and leave the same instance state, with parameters = arguments and declared locals zero. module_sim_concrete (Props/C03Num) instantiates every parameter of that theorem: the specification side runs Spec.numOp / Spec.load / Spec.store, the emitted-C side EXECUTES, by the C semantics, the statement w2c2 emits for each of the 136 numeric opcodes (dispatch table and header macros regenerated from c.c / w2c2_base.h) and the regenerated load/store functions — C01, C02 and C05 composed with C03/C04 in one theorem. The model is tied to the real translator on every run: the rendered model output equals the real w2c2 output token by token for every function of thousands of generated modules in plain/-p/-m modes, and the compiled real output agrees with V8.",
   "design_ref": "DESIGN.md §5 C03, §10",
-  "note": "Partial: memory.copy/fill/init, data.drop and atomic instructions inside a body are translated by the model (token tie) but make the modelled run `stuck` (outside the theorem; covered by e2e); wasmMemoryGrow and host functions are parameters (any function). Trusted: Model.Sim's source semantics = the specification (tied to V8 by the xrun/mrun correspondence and e2e); the hand-written translator model only through emit-tokens.",
+  "note": "Partial: data.drop (w2c2 reports it as unimplemented and emits nothing) and atomic instructions inside a body make the modelled run `stuck` (outside the theorem; atomics are covered by C16 + e2e); wasmMemoryGrow and host functions are parameters (any function). Trusted: Model.Sim's source semantics = the specification (tied to V8 by the xrun/mrun correspondence and e2e); the hand-written translator model only through emit-tokens.",
  },
  "C04": {
   "technique": "Lean 4 module-level simulation (function index space, recursion to any depth, host imports, call_indirect) + element-segment initialisation theorem + emit-tokens / e2e host-trace correspondence",
